@@ -159,6 +159,7 @@ type Frame struct {
 	depth     int
 	binds     []Val // free variable bindings
 	watcher   *watcher // frame runs a goroutine that was waiting on a channel
+	onReturn  func(cfg *Config) // run when the frame is popped (normally or by a panic)
 }
 
 func (f *Frame) clone() *Frame {
